@@ -31,7 +31,7 @@ def run(ctx):
     lean_ok = C.lean_build_and_audit(ctx, MODULE, theorems)
     ctx.assumptions += [
         "the theorems are about the allocation model's panic and hang exits under range conditions (free lists inside their tables, a successful chain walk before extend_chain); that the damaged states reachable from permissive open satisfy what each call needs is decided by the campaign, not proved",
-        "the model's write path is tied to the code byte for byte on valid files (C02/C03/C15 lock-step); on damaged files only the implementation is run (the model is not started from foreign tables)",
+        "the model's write path is tied to the code byte for byte on valid files (C02/C03/C15 lock-step); on damaged files it is loaded from every accepted image it can be loaded from (a directory that is a tree, streams whose chains can be read) and compared at the level of allocation decisions (result kind + allocator caches after every call, until one side refuses); error behaviour and file contents on damaged tables are not compared",
         "in half of the cases a stream that a handle is bound to is also removed, overwritten or opened a second time (what such a handle means is not judged — C07 speaks of a handle while its stream exists — only that nothing panics or hangs)",
         "debug assertions count as panics (the harness builds the crate with debug assertions on)",
     ]
@@ -90,6 +90,59 @@ def run(ctx):
             os.remove(os.path.join(hdir, "huge_v3.cfb"))
         except OSError:
             pass
+        # the allocation model on DAMAGED tables (what the theorems of Phys/NoPanic*.lean are about): the two-level
+        # model is loaded from each accepted damaged image it can be loaded from, the same calls are applied, and
+        # as long as both sides proceed they must make the same allocation decisions: the same result kind and the
+        # same allocator caches (num_sectors, fat.len, free_sectors in order, minifat.len, free_mini_sectors in
+        # order, dir_entries.len, MiniFAT start, mini stream start/len) after every call.  Where one side refuses
+        # and the other proceeds the history ends (the library checks some inconsistencies the model does not
+        # look at, and the other way round: error behaviour on damaged tables is not claimed equal); file contents
+        # are not compared (a sector that is table and data at once is rendered from the table by the model).
+        lkdir = R.scratch(ctx, "lockstep")
+        lops, limp, lmod = ctx.path("lk.ops"), ctx.path("lk.impl"), ctx.path("lk.model")
+        rc4, out4 = C.harness(["damage", "--lockstep", "--seed", ctx.seed, "--bases", blist, "--count", 1500 if quick else 20000, "--max-ops", 10,
+                               "--outdir", lkdir, "--ops", lops, "--impl", limp], timeout=6000)
+        lk = {"histories": 0, "not_loadable_or_different_after_load": 0, "calls_compared": 0, "implementation_refuses_more": 0, "model_refuses_more": 0, "both_fail": 0}
+        if rc4 == 0 and os.path.exists(lops):
+            C.driver(["phys", "--damaged"], lops, lmod)
+            lo, la, lb = open(lops).read().splitlines(), open(limp).read().splitlines(), open(lmod).read().splitlines()
+
+            def res(x, op):
+                r = x.split(" | ")[0]
+                return "ok" if op.split(" ")[0] in ("get", "hread") and r.startswith("ok") else r
+
+            def caches(x):
+                parts = x.split(" | ")
+                return parts[2] if len(parts) > 2 else ""
+            i = 0
+            while i < len(lo) and i < len(lb):
+                j = i + 1
+                while j < len(lo) and not lo[j].startswith("load "):
+                    j += 1
+                lk["histories"] += 1
+                if lb[i].startswith("unloadable") or caches(la[i]) != caches(lb[i]):
+                    lk["not_loadable_or_different_after_load"] += 1
+                else:
+                    for k in range(i + 1, min(j, len(lb))):
+                        ra, rb = res(la[k], lo[k]), res(lb[k], lo[k])
+                        fa = ra.startswith("err") or ra == "panic"
+                        fb = "PHYSFAIL" in lb[k] or rb.startswith("err")
+                        if fa or fb:
+                            lk["both_fail" if fa and fb else "implementation_refuses_more" if fa else "model_refuses_more"] += 1
+                            break
+                        if ra != rb or caches(la[k]) != caches(lb[k]):
+                            keep = os.path.join(ctx.replaydir, "damaged_lockstep_%d.cfb" % i)
+                            img = lo[i].split(" ")[1]
+                            if os.path.exists(img):
+                                shutil.copy(img, keep)
+                            if len([d for d in ctx.disagreements if d.get("level") == "H(damaged)"]) < 3:
+                                ctx.disagreements.append({"origin": "damaged image %s, calls below" % keep, "level": "H(damaged)", "history": [l[:120] for l in lo[i + 1:k + 1]],
+                                                          "implementation": la[k][-260:], "model": lb[k][-260:], "theorem": THM})
+                            break
+                        lk["calls_compared"] += 1
+                i = j
+        elif rc4 != 0:
+            ctx.undischarged.append("harness damage --lockstep crashed: " + out4[-300:])
         # the model side of the tie: a small lock-step run of the write path on valid files
         stat2, h2, _ = P.campaign(ctx, ["--seed", ctx.seed, "--count", 40 if quick else 500, "--max-ops", 30], "tie", THM, PID)
         ctx.coverage.update({
@@ -101,7 +154,8 @@ def run(ctx):
             "accepted_damaged_images": stat.get("accepted", 0),
             "histogram": {k: v for k, v in hist.items() if not k.startswith("accepted:")},
             "accepted_by_corruption": {k[9:]: v for k, v in hist.items() if k.startswith("accepted:")},
-            "traces_validated_against_impl": stat2.get("histories", 0),
+            "traces_validated_against_impl": stat2.get("histories", 0) + lk["histories"] - lk["not_loadable_or_different_after_load"],
+            "model_on_damaged_tables": lk,
             "samples": [],
         })
     finally:
